@@ -18,7 +18,7 @@ Definition is_comm_ring (K : ringops) : Prop :=
 Theorem C16_blocked_gemm_correct :
   forall K, is_comm_ring K ->
   forall P bb kb m n k (alpha beta : K) bs (A B : mat K) la rb (o : omat K) i j,
-    params_okb P = true -> 0 < bb -> 0 < kb ->
+    (m <> 0 -> n <> 0 -> k <> 0 -> params_okb P = true) -> 0 < bb -> 0 < kb ->
     gemm_impl K P bb kb m n k alpha beta bs A B la rb o i j =
     gemm_spec K alpha beta bs A B m n k o i j.
 Proof. intros K (H1 & H2 & H3). exact (gemm_impl_correct K H1 H2 H3). Qed.
@@ -65,7 +65,7 @@ Proof. intros K (H1 & H2 & H3). exact (gemv_correct K H1 H2 H3). Qed.
 Theorem C16_beta_zero_no_poison :
   forall K, is_comm_ring K ->
   forall P bb kb m n k (alpha beta : K) bs (A B : mat K),
-    params_okb P = true -> 0 < bb -> 0 < kb ->
+    (m <> 0 -> n <> 0 -> k <> 0 -> params_okb P = true) -> 0 < bb -> 0 < kb ->
     forall la rb (o o' : omat K) i j, beta = r0 K -> i < m -> j < n ->
     gemm_impl K P bb kb m n k alpha beta bs A B la rb o i j =
     gemm_impl K P bb kb m n k alpha beta bs A B la rb o' i j /\
@@ -76,7 +76,7 @@ Proof. intros K (H1 & H2 & H3). exact (beta_zero_no_poison K H1 H2 H3). Qed.
 Theorem C16_every_output_initialised :
   forall K, is_comm_ring K ->
   forall P bb kb m n k (alpha beta : K) bs (A B : mat K),
-    params_okb P = true -> 0 < bb -> 0 < kb ->
+    (m <> 0 -> n <> 0 -> k <> 0 -> params_okb P = true) -> 0 < bb -> 0 < kb ->
     forall la rb (o : omat K) i j, i < m -> j < n ->
     (reqb K beta (r0 K) = false -> o i j <> None) ->
     gemm_impl K P bb kb m n k alpha beta bs A B la rb o i j <> None.
@@ -86,7 +86,7 @@ Proof. intros K (H1 & H2 & H3). exact (every_output_initialised K H1 H2 H3). Qed
 Theorem C16_nothing_outside_written :
   forall K, is_comm_ring K ->
   forall P bb kb m n k (alpha beta : K) bs (A B : mat K),
-    params_okb P = true -> 0 < bb -> 0 < kb ->
+    (m <> 0 -> n <> 0 -> k <> 0 -> params_okb P = true) -> 0 < bb -> 0 < kb ->
     forall la rb (o : omat K) i j, ~ (i < m /\ j < n) ->
     gemm_impl K P bb kb m n k alpha beta bs A B la rb o i j = o i j.
 Proof. intros K (H1 & H2 & H3). exact (nothing_outside_written K H1 H2 H3). Qed.
@@ -95,7 +95,7 @@ Proof. intros K (H1 & H2 & H3). exact (nothing_outside_written K H1 H2 H3). Qed.
 Theorem C16_prepack_eq :
   forall K, is_comm_ring K ->
   forall P bb kb m n k (alpha beta : K) bs (A B : mat K),
-    params_okb P = true -> 0 < bb -> 0 < kb ->
+    (m <> 0 -> n <> 0 -> k <> 0 -> params_okb P = true) -> 0 < bb -> 0 < kb ->
     forall la rb la' rb' (o : omat K) i j,
     gemm_impl K P bb kb m n k alpha beta bs A B la rb o i j =
     gemm_impl K P bb kb m n k alpha beta bs A B la' rb' o i j.
